@@ -160,3 +160,28 @@ Definition spec_ok_C13 (db : cdb) (lay : list (name * entry)) (vbfile : option b
        else io_error_b fs vb local
    | Some _ => Z.eqb rc 0 && match ps with [] => true | _ => false end
    end).
+
+(** ** the reply to RCPT TO (observation of the real addrparse()) *)
+Definition REPLY_550 : bytes := [53; 53; 48; 32; 53; 46; 49; 46; 49; 32]%N.      (* "550 5.1.1 " *)
+Definition starts_with (p l : bytes) : bool := bytes_eqb (firstn (length p) l) p.
+Definition nil_b {A} (l : list A) : bool := match l with [] => true | _ => false end.
+
+(** [rc] = return value of addrparse() (0 accepted, -1 refused after a reply was written, > 0 error code),
+    [reply] = what it wrote. *)
+Definition spec_ok_C13_rcpt (db : cdb) (lay : list (name * entry)) (vbfile : option bytes) (domain local : bytes)
+    (rc : Z) (reply : bytes) (conf : N) (ps : list probe) : bool :=
+  let l := map to_lower local in
+  let d := map to_lower domain in
+  let fs := fs_of_layout lay in
+  let vb := vpopbounce_of vbfile in
+  confined_b ps && (N.leb conf 1) &&
+  (if negb (component_b l) then Z.eqb rc (-1) && starts_with REPLY_550 reply && nil_b ps
+   else if VP_CDBKEY <=? length d + 3 then Z.ltb 0 rc && nil_b ps
+   else match domain_state db d with
+   | None => Z.eqb rc 0 && nil_b reply && nil_b ps           (* no vpopmail domain: nothing to check here *)
+   | Some DomTree =>
+       if Z.eqb rc 0 then mailbox_b fs vb l && nil_b reply
+       else if Z.eqb rc (-1) then negb (mailbox_b fs vb l) && starts_with REPLY_550 reply
+       else Z.ltb 0 rc && io_error_b fs vb l
+   | Some _ => Z.eqb rc (-1) && starts_with REPLY_550 reply && nil_b ps
+   end).
